@@ -1,5 +1,6 @@
 """C01 — the objective is never evaluated outside the declared box bounds."""
 from . import _whole
+from .. import ops_direct
 
 
 def scaling(ctx, results):
@@ -43,6 +44,18 @@ def _replay_scaling(ctx, data):
 scaling.replay_name, scaling.replay = "scaling", _replay_scaling
 
 
+def operators(ctx, results):
+    r = ops_direct.run_ops(ctx, ctx.n(200, 6000), "C01-ops")
+    return r
+
+
+def _replay_ops(ctx, data):
+    return False, str(data.get("what"))[:300]
+
+
+operators.replay_name, operators.replay = "ops", _replay_ops
+
+
 def nontrivial(r):
     return r["spec"]["box_style"] in ("decimal", "tiny", "narrow", "asym") or any(l["engine"] in ("Local", "CMA", "CMAwarm", "CMAstds") for l in r["spec"]["levels"])
 
@@ -51,11 +64,11 @@ _whole.install(globals(), "C01",
                text="(a) on ALL binary64 values and every random draw: every gene produced by Gaussian mutation (toroidal repair of all genes), uniform mutation, arithmetic crossover (clip), "
                     "DE/SHADE trials (reflect + gene-wise mix), sample_normal's rejection loop and the affine LHS/Sobol scaling (for every box on which the decidable last-ulp test holds, evaluated in Coq for every generated box) lies in the box — the repair being the definition regenerated from apply_bounds (C17); "
                     "(b) history machine, every event stream: every genome stored in any history and every seed was evaluated by the objective, so box membership of all evaluations "
-                    "carries over to everything stored. Tie: translator + GenEquiv for apply_bounds, history replay of recorded runs, and the monitor testing every objective call, history "
+                    "carries over to everything stored. Tie: translator + GenEquiv for apply_bounds; the real GaussianMutation / UniformMutation / ArithmeticCrossover / DE mutation (+ dither) / Crossover driven with prepared draws and compared gene by gene, bit for bit, with the model under vm_compute; history replay of recorded runs, and the monitor testing every objective call, history "
                     "entry, seed and result against the box on boxes that are decimal, a few ulps wide, 1e+-6 wide, with optima on or beyond the faces.",
                note="External contracts measured on every trace, not proved: np.random.uniform(lo,hi) in [lo,hi] (X1), CMA-ES 'bounds' (X2), scipy 'bounds' (X3), qmc samples in [0,1) (X4). NaN genes (non-finite draws) are outside the domain. " + _whole.HIST_NOTE,
                technique="Coq theorems on Flocq binary64 operators (regenerated apply_bounds) + history-machine invariant over all event streams + vm_compute trace replay + box monitor on real runs",
-               quick=200, thorough=5000, nontrivial=nontrivial, front_ends=["common"], machine_replay=False, hist_replay=True, extra_checks=[scaling],
+               quick=200, thorough=5000, nontrivial=nontrivial, front_ends=["common"], machine_replay=False, hist_replay=True, extra_checks=[scaling, operators],
                forces=[(3, {"cap_evals": 900}), (1, {"cap_evals": 900, "objective_kind": "linear"}), (1, {"cap_evals": 900, "height": 2, "engines": ["SEA", "Local"]}),
                        (1, {"cap_evals": 900, "height": 2, "engines": ["GAStyleSEA", "CMA"]}),
                        (1, {"cap_evals": 700, "height": 2, "dim": 5, "engines": ["SEA", "DE"], "levels_patch": [{}, {"sample_std": 8.0, "pop": 5}], "box_style": "sym"}),
